@@ -565,3 +565,65 @@ def ends_in_raise(stmts: list[ast.stmt]) -> bool:
         )
         return ok
     return False
+
+
+def node_defines(n: Node, name: str) -> bool:
+    """Does executing CFG node ``n`` (re)bind local variable ``name``?"""
+    st = n.ast
+    if st is None:
+        return False
+    if n.kind == "for" and isinstance(st, (ast.For, ast.AsyncFor)):
+        return any(isinstance(t, ast.Name) and t.id == name for t in ast.walk(st.target))
+    if n.kind == "with" and isinstance(st, (ast.With, ast.AsyncWith)):
+        return any(
+            i.optional_vars is not None
+            and any(isinstance(t, ast.Name) and t.id == name for t in ast.walk(i.optional_vars))
+            for i in st.items
+        )
+    if n.kind == "handler" and isinstance(st, ast.ExceptHandler):
+        return st.name == name
+    if n.kind in ("test", "while", "match", "case"):
+        probe = [getattr(st, "test", None) or getattr(st, "subject", None)]
+    else:
+        probe = [st]
+    for p in probe:
+        if p is None:
+            continue
+        if isinstance(p, (ast.Assign, ast.AnnAssign, ast.AugAssign)):
+            tg = p.targets if isinstance(p, ast.Assign) else [p.target]
+            if isinstance(p, ast.AnnAssign) and p.value is None:
+                tg = []
+            for t in tg:
+                for x in ast.walk(t):
+                    if isinstance(x, ast.Name) and isinstance(x.ctx, ast.Store) and x.id == name:
+                        return True
+        if isinstance(p, (ast.Import, ast.ImportFrom)):
+            if any((a.asname or a.name.split(".")[0]) == name for a in p.names):
+                return True
+        if isinstance(p, (ast.FunctionDef, ast.ClassDef)) and p.name == name:
+            return True
+        for x in ast.walk(p):
+            if isinstance(x, ast.NamedExpr) and isinstance(x.target, ast.Name) and x.target.id == name:
+                return True
+    return False
+
+
+def defs_reaching(cfg: CFG, name: str, at: Node, kinds: str = "n") -> list:
+    """CFG nodes defining ``name`` that reach ``at`` (cfg.entry stands for 'parameter /
+    not yet assigned')."""
+    out = []
+    seen = set()
+    stack = [p for p in cfg._preds(at, kinds)]
+    while stack:
+        n = stack.pop()
+        if n in seen:
+            continue
+        seen.add(n)
+        if n is cfg.entry:
+            out.append(n)
+            continue
+        if node_defines(n, name):
+            out.append(n)
+            continue
+        stack.extend(cfg._preds(n, kinds))
+    return out
